@@ -98,7 +98,10 @@ func (j *jsonSubProto) Unpack(m erpc.Message) error {
 	// read transfer pipe
 	xferPipe := gjson.Get(s, "xferPipe")
 	for _, r := range xferPipe.Array() {
-		m.XferPipe().Append(byte(r.Int()))
+		// a pipe naming an unregistered filter is refused
+		if err = m.XferPipe().Append(byte(r.Int())); err != nil {
+			return err
+		}
 	}
 
 	// read body
